@@ -141,33 +141,33 @@ def native_randomize_replay(name):
         keys = jr.split(jr.key(123), 4096)
         tol = 1e-5
         if name == "randomize_friction":
-            for r in ((0.4, 1.0), (0.1, 0.2), (1.5, 3.0)):
+            for r in ((0.4, 1.0), (0.1, 0.2), (1.5, 3.0), (0.0, 1.0)):
                 pf = np.asarray(jax.vmap(lambda k_: RZ.randomize_friction(base, key=k_, friction_range=r).pair_friction)(keys))
                 blk = pf[:, 0:2, 0:2]
-                if blk.min() < r[0] - tol or blk.max() > r[1] + tol:
+                if not np.all(np.isfinite(blk)) or blk.min() < r[0] - tol or blk.max() > r[1] + tol:
                     return dict(reproduced=True, route="R1 (real randomize_friction, 4096 keys)", inputs=dict(friction_range=r), observed=dict(min=float(blk.min()), max=float(blk.max())))
             return dict(reproduced=False, note="3 ranges x 4096 keys within range")
         if name in ("randomize_friction_loss", "randomize_armature"):
             nomv = env.nominal_friction_loss if name == "randomize_friction_loss" else env.nominal_armature
             field = "dof_frictionloss" if name == "randomize_friction_loss" else "dof_armature"
             kw = "nominal_friction_loss" if name == "randomize_friction_loss" else "nominal_armature"
-            for r in ((0.5, 2.0), (1.0, 1.05), (1.2, 1.3), (0.7, 0.8)):
+            for r in ((0.5, 2.0), (1.0, 1.05), (1.2, 1.3), (0.7, 0.8), (0.0, 2.0), (0.0, 0.0)):
                 out = np.asarray(jax.vmap(lambda k_: getattr(getattr(RZ, name)(base, key=k_, scale_range=r, **{kw: nomv}), field))(keys), np.float64)
                 nom64 = np.asarray(nomv, np.float64)
                 lo_, hi_ = nom64 * r[0], nom64 * r[1]
                 v = out[:, 6:]
-                if np.any(v < lo_ - tol * (1 + np.abs(lo_))) or np.any(v > hi_ + tol * (1 + np.abs(hi_))) or not np.array_equal(out[:, :6], np.broadcast_to(np.asarray(getattr(base, field))[:6], out[:, :6].shape)):
-                    w = np.argwhere((v < lo_ - tol * (1 + np.abs(lo_))) | (v > hi_ + tol * (1 + np.abs(hi_))))
+                if not np.all(np.isfinite(v)) or np.any(v < lo_ - tol * (1 + np.abs(lo_))) or np.any(v > hi_ + tol * (1 + np.abs(hi_))) or not np.array_equal(out[:, :6], np.broadcast_to(np.asarray(getattr(base, field))[:6], out[:, :6].shape)):
+                    w = np.argwhere(~np.isfinite(v) | (v < lo_ - tol * (1 + np.abs(lo_))) | (v > hi_ + tol * (1 + np.abs(hi_))))
                     return dict(reproduced=True, route=f"R1 (real {name}, 4096 keys)", inputs=dict(scale_range=r), observed=dict(first_offending=[int(x) for x in w[0]] if len(w) else None,
                                 value=float(v[tuple(w[0])]) if len(w) else None, allowed=[float(lo_[w[0][1]]), float(hi_[w[0][1]])] if len(w) else None))
             return dict(reproduced=False, note="4 ranges x 4096 keys within nominal*[lo, hi]; free-joint DOFs untouched")
         nom64 = np.asarray(env.nominal_body_mass, np.float64)
-        for r, o in (((0.9, 1.1), (-1.0, 1.0)), ((1.0, 1.3), (2.0, 3.0)), ((0.5, 0.9), (1.0, 2.0)), ((1.0, 1.0), (0.0, 0.0)), ((0.8, 1.2), (-0.5, -0.25))):
+        for r, o in (((0.9, 1.1), (-1.0, 1.0)), ((1.0, 1.3), (2.0, 3.0)), ((0.5, 0.9), (1.0, 2.0)), ((1.0, 1.0), (0.0, 0.0)), ((0.8, 1.2), (-0.5, -0.25)), ((0.0, 1.0), (0.0, 1.0))):
             out = np.asarray(jax.vmap(lambda k_: RZ.randomize_body_mass(base, key=k_, nominal_body_mass=env.nominal_body_mass, scale_range=r, torso_body_id=tid, torso_offset_range=o).body_mass)(keys), np.float64)
             lo_, hi_ = nom64 * r[0], nom64 * r[1]
             lo_[tid] += o[0]
             hi_[tid] += o[1]
-            badm = (out < lo_ - tol * (1 + np.abs(lo_))) | (out > hi_ + tol * (1 + np.abs(hi_)))
+            badm = ~np.isfinite(out) | (out < lo_ - tol * (1 + np.abs(lo_))) | (out > hi_ + tol * (1 + np.abs(hi_)))
             if badm.any():
                 w = np.argwhere(badm)[0]
                 return dict(reproduced=True, route="R1 (real randomize_body_mass on the G1 model, 4096 keys)", inputs=dict(scale_range=r, torso_offset_range=o, key_index=int(w[0]), body=int(w[1]), torso_body_id=tid),
@@ -191,6 +191,11 @@ def unit_randomize(S):
     }
     for name, fn in cases.items():
         S.under_contract(F.format(name))
+        # floats are reals in the encoding (A-REAL): NaN / inf produced for legal boundary ranges (a lower bound of exactly 0, a degenerate range) are invisible to the
+        # obligations below, so the native battery - which includes such ranges - also runs as a bounded check on every run
+        rnat = native_randomize_replay(name)(None)
+        S.bounded_check(f"{name}/native-ranges-incl-zero-lower-bound", not rnat.get("reproduced"), bound="4096 keys x several configured ranges incl. lower bound 0 and degenerate ranges, real G1 model",
+                        function=F.format(name), what="every randomised entry is finite and within its configured range around the nominal value", detail=rnat, replay=lambda m, rnat=rnat: rnat)
         ctx = Ctx()
         _, repl = sym_model(ctx, base)
         rng = sym(ctx, "range", sd((2,), f32))
